@@ -8,14 +8,19 @@ from kq import facts
 from kq.core import norm_name
 
 names = set()
+sigs = {}       # norm name -> [return type, [parameter types]]: lets a consistently *renamed* private function be recognised
+cfgs = {}       # norm name -> build configurations that have the function
 for cfg in facts.CONFIGS:
     crates = facts.load(cfg)
     for c in crates.values():
         for name, j in c["fns"].items():
             if j["kind"] != "closure":
-                names.add(norm_name(name))
+                n = norm_name(name)
+                names.add(n)
+                sigs[n] = [j["locals"][0]["ty"], [j["locals"][i]["ty"] for i in range(1, j["nargs"] + 1)]]
+                cfgs.setdefault(n, []).append(cfg)
 head = subprocess.run(["git", "-C", facts.REPO, "rev-parse", "HEAD"], capture_output=True, text=True).stdout.strip()
 out = os.path.join(os.path.dirname(os.path.dirname(os.path.abspath(__file__))), "kq", "known_fns.json")
 with open(out, "w") as fh:
-    json.dump({"repo_head": head, "count": len(names), "functions": sorted(names)}, fh, indent=0)
+    json.dump({"repo_head": head, "count": len(names), "functions": sorted(names), "signatures": sigs, "configs": cfgs}, fh, indent=0)
 print("wrote", out, len(names), "functions at", head)
